@@ -55,21 +55,24 @@ def shards(tier, seed):
         out.insert(1, {"nsched": 3, "K": 4, "fails": [0, 0, 1, 0], "recomp_max": 2, "factors": "dyadic"})
     else:
         for nsched in (2, 3, 4):
-            K = 5
+            K = 5 if nsched == 3 else 4
             for fails in itertools.product((0, 1), repeat=K):
                 out.append({"nsched": nsched, "K": K, "fails": list(fails),
                             "recomp_max": 1 + (sum(fails) % 3), "factors": "dyadic"})
-        for nsched in (2, 3):
-            for fails in itertools.product((0, 1), repeat=4):
-                out.append({"nsched": nsched, "K": 4, "fails": list(fails), "recomp_max": 2,
-                            "factors": "default"})
+        for fails in itertools.product((0, 1), repeat=4):
+            out.append({"nsched": 3, "K": 4, "fails": list(fails), "recomp_max": 2, "factors": "default"})
         for nsched in (2, 3):
             for fails in itertools.product((0, 1), repeat=3):
                 out.append({"nsched": nsched, "K": 3, "fails": list(fails), "recomp_max": 2,
                             "factors": "symbolic"})
-        out.append({"nsched": 5, "K": 6, "fails": [0] * 6, "recomp_max": 2, "factors": "dyadic"})
-        out.append({"nsched": 6, "K": 6, "fails": [0] * 6, "recomp_max": 2, "factors": "dyadic"})
+        out.append({"nsched": 5, "K": 4, "fails": [0] * 4, "recomp_max": 2, "factors": "dyadic"})
+        out.append({"nsched": 6, "K": 4, "fails": [0, 0, 1, 0], "recomp_max": 2, "factors": "dyadic"})
     return out
+
+
+def configure(cfg, tier):
+    # a shard that exceeds its path budget reports the unexplored prefixes (never success)
+    cfg.max_paths = 20000 if tier == "quick" else 60000
 
 
 def _close(a, b):
